@@ -93,9 +93,9 @@ fn e2e(ctx: &mut Ctx, reg: bool, o: &Org, rp: Option<&str>, allow: bool, prov: P
         (res, hash)
     });
     let l = log.lock().unwrap().clone();
-    let find = l.iter().find(|s| s.starts_with("find ")).map(|s| s.split("rp=").nth(1).unwrap_or("?").to_string()).unwrap_or("NONE".into());
-    let save = l.iter().find(|s| s.starts_with("save ")).map(|s| s.split("rp=").nth(1).unwrap_or("?").split(' ').next().unwrap().to_string()).unwrap_or("NONE".into());
-    let uv = l.iter().filter(|s| s.starts_with("uv ")).count();
+    let find = l.iter().find(|s| s.starts_with("find:")).map(|s| s.split(':').nth(2).unwrap_or("?").to_string()).unwrap_or("NONE".into());
+    let save = l.iter().find(|s| s.starts_with("save:")).map(|s| s.split(':').nth(2).unwrap_or("?").to_string()).unwrap_or("NONE".into());
+    let uv = l.iter().filter(|s| s.starts_with("uv:")).count();
     let obs = match obs { None => "panic".to_string(), Some((res, hash)) => format!("res={} find={} save={} uv={} hash={}", res, find, save, uv, hash) };
     ctx.stat(if reg { "rp.e2e.register" } else { "rp.e2e.authenticate" });
     ctx.line(&format!("rp.e2e {} {}", if reg { "reg" } else { "auth" }, f), &obs);
